@@ -5,6 +5,7 @@ mod space;
 mod textsem;
 mod conv;
 mod enumerate;
+mod formulas;
 mod props;
 mod refl;
 mod robdd;
